@@ -2,6 +2,7 @@
   Driver operations: text output (C11, C13) and parsing (C11, C12).
 -/
 import Driver.Ops3
+import DecimalModel.Marsh
 import DecimalModel.Text
 import DecimalModel.Parse
 
@@ -232,9 +233,43 @@ def parseOp (env : Array Dec) (kind zs bs hs : String) : Step :=
         (match r with | .ok (d, _) => (if d.acc != 0 then ["inexact"] else []) ++ (if isPlain10 then [] else ["nondecimal-or-inf"]) | .error _ => ["rejected"]) }
   | _, _, _ => badStep env "parse"
 
+/-- `x.MarshalText()` / `json.Marshal(x)`: exactly the shortest `%g` text (quoted for JSON), sign of zero included. -/
+def marshalOp (env : Array Dec) (json : Bool) (xs : String) : Step :=
+  match getVar env xs with
+  | some (_, x) =>
+    let body := marshalText x
+    let out := if json then [34] ++ body ++ [34] else body
+    { env := env, extra := bytesToHex out, spec := frameOk env [],
+      tags := [if json then "marshaljson" else "marshaltext"] ++ (if x.form != .finite then ["special"] else []) }
+  | none => badStep env "marshal"
+
+/-- `z.UnmarshalText(b)` / `json.Unmarshal(b, z)`: `Parse(string, 0)` consuming everything; for JSON the value
+    must be a string (the harness only sends what `json.Marshal` produced or strings). -/
+def unmarshalOp (env : Array Dec) (json : Bool) (zs hs : String) : Step :=
+  match getVar env zs, hexToBytes hs with
+  | some (zi, z), some bytes =>
+    let inner : Option (List Nat) :=
+      if !json then some bytes
+      else if bytes.length ≥ 2 && bytes.head? == some 34 && bytes.getLast? == some 34 && !((bytes.drop 1).dropLast.any (fun b => b == 34 || b == 92 || b < 32 || b ≥ 127))
+        then some ((bytes.drop 1).dropLast) else none
+    match inner with
+    | none => { env := env, skipExtra := true, skipVars := [zi], spec := frameOk env [zi], tags := ["unmarshaljson", "not-modelled"] }
+    | some t =>
+      (match unmarshalText z t with
+      | .ok d => { env := env.set! zi d, extra := "ok", spec := andSpec (frameOk env [zi]) canonicalAll,
+                   tags := [if json then "unmarshaljson" else "unmarshaltext", "accepted"] ++ (if d.form != .finite then ["special"] else []) }
+      | .error _ => { env := env, extra := "err", skipVars := [zi], spec := andSpec (frameOk env [zi]) canonicalAll,
+                      tags := [if json then "unmarshaljson" else "unmarshaltext", "rejected"] })
+  | _, _ => badStep env "unmarshal"
+
 def doOp4 (env : Array Dec) (c : Ctx) (toks : List String) : Step :=
   match toks with
   | ["text", x, f, p] => textOp env x f p
+  | ["marshaltext", x] => marshalOp env false x
+  | ["marshaljson", x] => marshalOp env true x
+  | ["unmarshaltext", z, h] => unmarshalOp env false z h
+  | ["unmarshaltext", z] => unmarshalOp env false z ""
+  | ["unmarshaljson", z, h] => unmarshalOp env true z h
   | ["sprintf", x, h] => sprintfOp env x h
   | ["parse", z, b, h] => parseOp env "parse" z b h
   | ["parse", z, b] => parseOp env "parse" z b ""
